@@ -209,15 +209,28 @@ def make_options(kind: str, uid: int) -> dict[str, Any]:
     return opts
 
 
+def _same_value(a: Any, b: Any) -> bool:
+    """Value equality of an option entry with the palette value (identity is not demanded: a correct
+    implementation may copy, even deep-copy, the options it captures)."""
+    if a is b:
+        return True
+    try:
+        import equinox
+
+        return bool(equinox.tree_equal(a, b))
+    except Exception:
+        return False
+
+
 def options_kind(opts: Any) -> str:
     if not isinstance(opts, dict):
         return '?' + type(opts).__name__
     kind = ''
     for key in sorted(opts):
         if key == 'preconditioner':
-            kind += 'P' if opts[key] is preconditioner() else '?P'
+            kind += 'P' if _same_value(opts[key], preconditioner()) else '?P'
         elif key == 'y0':
-            kind += 'Y' if opts[key] is y0() else '?Y'
+            kind += 'Y' if _same_value(opts[key], y0()) else '?Y'
         elif key == 'vtag':
             pass
         else:
